@@ -143,6 +143,7 @@ def run(case):
         first = attempt(lambda: ra.as_padded_matrix(fill_value=case["fill"], side="left" if case["side"] == "right" else "right"))   # an earlier conversion of the same object
         side, fv = case["side"], case["fill"]
         tags.append("side:" + side)
+        side = "".join(list(side)) if (n + tot) % 2 else np.str_(side)       # the keyword as a string made at run time (read from a file, .lower()ed), not the literal in this source
         M = max(lens)
         exp = np.full((n, M), fv, dtype=dt)
         for i, r in enumerate(rows):
@@ -359,6 +360,12 @@ def gen_case(rng, tier, op=None, lens=None, dtype=None, recv=None):
 def directed():
     import random
     rng = random.Random(808)
+    # column-wise joins of more than 10000 rows (row order inside the joined rows must survive any grouping by row number)
+    for nrows_ in (10001, 25000):
+        l1 = [(i * 7) % 3 for i in range(nrows_)]
+        l2 = [(i * 5) % 2 + 1 for i in range(nrows_)]
+        yield {"op": "concat1", "parts": [{"lens": l1, "dtype": "int32", "vals": list(range(sum(l1))), "recv": "fresh"}, {"lens": l2, "dtype": "int32", "vals": list(range(100000, 100000 + sum(l2))), "recv": "fresh"},
+                                          {"lens": l1, "dtype": "int32", "vals": list(range(500000, 500000 + sum(l1))), "recv": "fresh"}]}
     # several hundred thousand short rows and a single longer one near the start: any block-wise padding must agree on the common width
     for nrows_ in (300000, 262145):
         ll = [(i * 7) % 3 for i in range(nrows_)]
